@@ -13,7 +13,7 @@ package model
 //@ spec cmdHasFct(c CmdType) bool
 //@ spec cmdFct(c CmdType) FunctionType
 
-//@ func (*CmdType).Data trusted
+//@ func (*CmdType).Data trusted reflective
 //@   requires cmd != nil
 //@   ensures (result1 == nil) <==> cmdHasData(*cmd)
 //@   ensures result1 != nil ==> result0 == nil
@@ -21,12 +21,13 @@ package model
 //@   modifies new(CmdData), new(FunctionType)
 
 // log text only; may panic on malformed datagrams (C05)
-//@ func (*DatagramType).PrintMessageOverview trusted
+//@ func (*DatagramType).PrintMessageOverview trusted safety-root
+//@   assumes d != nil
 //@   modifies nothing
 
 // returns pointers into cmd.Filter (the partial and the delete filter, if present); may panic on a
 // filter without cmdControl (C05)
-//@ func (*CmdType).ExtractFilter trusted
+//@ func (*CmdType).ExtractFilter trusted safety-root
 //@   modifies nothing
 
 // ---------------------------------------------------------------------------------------
